@@ -440,7 +440,7 @@ def case_affine(draw, max_extent=6, coeffs=(1, 1, 2, 2, 3, 4), allow_partition=T
     optional extra plain ranks (batch N in I and O, channel M in F and O, reduction C in I and F).
     returns a case with shape-consistent extents.
     """
-    tmpl = draw(st.sampled_from(["conv1d", "conv1d", "conv1d", "conv2d", "sum3", "subsample", "rename", "convneg", "convneg"]))
+    tmpl = draw(st.sampled_from(["conv1d", "conv1d", "conv1d", "conv2d", "sum3", "subsample", "rename", "convneg", "convneg", "twotap"]))
     ext = {}
     sizes = {}
     e = lambda: draw(st.integers(1, max_extent))  # noqa: E731
@@ -482,6 +482,19 @@ def case_affine(draw, max_extent=6, coeffs=(1, 1, 2, 2, 3, 4), allow_partition=T
         if draw(st.booleans()):
             facs.reverse()
         expr = {"out": ["O", o_idx], "terms": [{"take": None, "factors": facs}]}
+        affine.append(("W", [(cf, v.upper()) for cf, v in terms]))
+        out_affine_rank, follower = "Q", "W"
+    elif tmpl == "twotap":
+        # two reduction taps in one access, the scaled one written first: O[q] = I[q + a*r + b*s] * F[r, s]
+        a, b = co(), co()
+        ext["Q"], ext["R"], ext["S"] = e(), draw(st.integers(1, 3)), draw(st.integers(1, 3))
+        terms = [(1, "q"), (a, "r"), (b, "s")]
+        ext["W"] = sum(cf * (ext[v.upper()] - 1) for cf, v in terms) + 1
+        decl = [["F", ["R", "S"]], ["I", ["W"]], ["O", ["Q"]]]
+        facs = [{"t": "I", "idx": [_ie(*terms)]}, {"t": "F", "idx": [_ie((1, "r")), _ie((1, "s"))]}]
+        if draw(st.booleans()):
+            facs.reverse()
+        expr = {"out": ["O", [_ie((1, "q"))]], "terms": [{"take": None, "factors": facs}]}
         affine.append(("W", [(cf, v.upper()) for cf, v in terms]))
         out_affine_rank, follower = "Q", "W"
     elif tmpl == "convneg":
